@@ -603,17 +603,19 @@ class eval_abs(object):
                 out = []
                 ov = self.get_mem_overlapping(a, eval_cache)
                 off_base = 0
-                ov.sort()
-                ov.reverse()
+                # increasing offsets: rest_slice() below walks the pieces from bit 0 upwards
+                ov.sort(key=lambda x:x[0])
                 for off, x in ov:
-                    off_base = off * 8
                     if off >=0:
+                        off_base = off * 8
                         m = min(a.get_size() - off_base, x.get_size())
                         ee = ExprSlice(self.pool[x], 0, m)
                         ee = expr_simp(ee)
                         out.append((ee, off_base, off_base+ee.get_size()))
                         off_base += ee.get_size()
                     else:
+                        # the stored cell starts before the read: its tail is the head of the result
+                        off_base = 0
                         m = min(a.get_size()-off*8, x.get_size())
                         ee = ExprSlice(self.pool[x], -off*8, m)
                         ee = expr_simp(ee)
